@@ -17,7 +17,9 @@ RULE = ("patterns are PRINTED from ASTs of the documented grammar (the model re-
         "(2/3/4-byte, combining, Arabic-Indic digit, Roman numeral), 17 fill characters incl. the syntax "
         "characters, widths <= 40 written with leading zeros, min <= max; records: every level, 12 messages, "
         "targets, absent/present module, file, line (incl. 0 and u32::MAX), MDC maps of <= 3 entries, named / "
-        "unnamed threads. thorough: debug AND release harness builds. "
+        "unnamed threads; (f) 36 (thorough 180) local/utc date patterns rendered while the harness PROCESS's time zone "
+        "changes between records (TZ switched among JST-9, EST5, Asia/Kolkata, UTC0, America/St_Johns): a local date "
+        "must follow the zone of the moment it is rendered. thorough: debug AND release harness builds. "
         "non-trivial = the pattern contains a formatter and the AST is well-formed for the positive theorem; "
         "distinct = distinct case line")
 ASSUMPTIONS = [
@@ -294,6 +296,17 @@ def cases(rng, tier):
         depth = rng.choice([1, 2, 2, 3, 4])
         seq = g_seq(rng, depth, False, mdc_class_ok=True, lookahead_ok=(i % 40 == 0))
         out.append(mk(rng, tier, seq))
+    # (f) the process's time zone changes while it runs (mode 5 switches TZ, the following cases
+    # of the same process keep the new zone): local dates must follow the zone of the moment
+    for env in envs:
+        for k in range(6 if tier == "quick" else 30):
+            for mode in (5, 1, 1):
+                d = rng.choice(["%Y-%m-%d %H:%M %z", "%z", "%:z %H", "%H:%M", "%+", "%c", "%Z %R"])
+                seq = [fmt("d", [[lit(d)]]), lit(" "), fmt("date", [[lit(d)], [lit("local")]]), lit(" "),
+                       fmt("d", [[lit(d)], [lit("utc")]]), lit(" "), fmt("d")]
+                c = mk(rng, tier, seq, envsel=env)
+                c[0] = mode
+                out.append(c)
     return out
 
 
